@@ -32,6 +32,11 @@ THEOREMS = [
     "PyTrie.Props.NonVacuity.branch_sound_witness",
     "PyTrie.Props.NonVacuity.bt_nc",
     "PyTrie.Props.NonVacuity.bforged_nc",
+    "PyTrie.Props.C13.raw_exists",
+    "PyTrie.Props.C13.raw_get_branch",
+    "PyTrie.Props.C13.raw_trie_nodes",
+    "PyTrie.Props.C13.raw_witness",
+    "PyTrie.Props.C13.raw_blank",
 ]
 RULE = ("binary tries built by generated histories over fixed-length and prefix-related key pools; for every pool key, its "
         "byte prefixes, extensions and bit-neighbours: get_branch (node list or InvalidKeyError), if_branch_valid on the honest "
